@@ -28,7 +28,7 @@ def calibrate():
 
 
 def strategy(tier):
-    return Lm.case_st(tier, pairs=PAIRS)
+    return Lm.case_st(tier, pairs=PAIRS, ivs=True)
 
 
 def budget(tier):
